@@ -519,6 +519,9 @@ def concatenate(arrays, axis=0, _no_check=False, align=False, **kwargs):
         if not isinstance(a, DimArray):
             raise ValueError("concatenate: expected DimArray. Got {}".format(type(a)))
 
+    # match dimensions by name, not by position
+    arrays = [a if not isinstance(a, DimArray) or a.dims == arrays[0].dims or set(a.dims) != set(arrays[0].dims) else a.transpose(arrays[0].dims) for a in arrays]
+
     if type(axis) is not int:
         axis = arrays[0].dims.index(axis)
     dim = arrays[0].dims[axis]
